@@ -216,6 +216,17 @@ def initL : List TCfg → List TState
   | [] => []
   | t :: ts => init t :: initL ts
 end
+
+mutual
+/-- the configuration contains at least one primitive trigger (an empty `MultiTrigger` never fires anything;
+    the SQL layer cannot produce one: no TRIGGER clause means `EndOfStreamTrigger`) -/
+def live : TCfg → Bool
+  | .multi ts => liveL ts
+  | _ => true
+def liveL : List TCfg → Bool
+  | [] => false
+  | t :: ts => live t || liveL ts
+end
 end TCfg
 
 end Octo.Trig
